@@ -127,3 +127,7 @@ thread_local! { static SPONTANEOUS: std::cell::Cell<usize> = const { std::cell::
 /// Drops granted at Pendings that the scripted transport did not cause (at most 3 per run, always taken first).
 pub fn reset_spontaneous() { SPONTANEOUS.with(|c| c.set(0)) }
 pub fn spontaneous_drop() -> bool { SPONTANEOUS.with(|c| { let n = c.get(); c.set(n + 1); n < 3 }) }
+
+thread_local! { static VECTORED_SRC: std::cell::Cell<bool> = const { std::cell::Cell::new(false) }; }
+pub fn set_vectored_src(b: bool) { VECTORED_SRC.with(|c| c.set(b)) }
+pub fn vectored_src() -> bool { VECTORED_SRC.with(|c| c.get()) }
